@@ -122,7 +122,7 @@ func TestVerifBounded_C11_DoUntilQuorum(t *testing.T) {
 						for step := 0; step < n && !returned; step++ {
 							// next instance in the order that has been called and not completed
 							var pick string
-							deadline := time.Now().Add(300 * time.Millisecond)
+							deadline := time.Now().Add(3 * time.Second) // a started call shows up at once; the wait only runs out when the executor hangs
 							for pick == "" && time.Now().Before(deadline) {
 								mu.Lock()
 								for _, idx := range perm {
@@ -235,7 +235,7 @@ func TestVerifBounded_C11_DoUntilQuorum(t *testing.T) {
 							}
 						}
 						okc := false
-						for w := 0; w < 400 && !okc; w++ {
+						for w := 0; w < 5000 && !okc; w++ {
 							okc = true
 							mu.Lock()
 							for _, in := range rs.Instances {
